@@ -30,6 +30,10 @@ def gen(seed, index):
     if rng.random() < 0.1:
         qs.append(["integrate", b, a])     # malformed: end before start
     case = ["envq", e] + qs
+    if rng.random() < 0.04:
+        # finding F10: a curve shape that is not 0 but tiny
+        rng.choice(e[1:])[2] = g.hexf(rng.choice([1e-6, 1e-8, 1e-9, -1e-9, 1e-12]))
+        return case
     if rng.random() < 0.15:
         # history stream: the same questions were already asked before the control points were edited in place
         e0 = [e[0]] + [list(p) for p in e[1:]]
@@ -55,6 +59,11 @@ def model_case(case):
 
 
 def compare(case, mo, io):
+    m = compare1(case, mo, io)
+    return ("[F10] " + m) if m and tiny_shape(strip(case)[1]) else m
+
+
+def compare1(case, mo, io):
     case = strip(case)
     qs = [q for q in case[2:]]
     mi = iter(mo[1:])
@@ -68,6 +77,11 @@ def compare(case, mo, io):
 
 
 def oracle(case, io, mo):
+    m = oracle1(case, io, mo)
+    return ("[F10] " + m) if m and tiny_shape(strip(case)[1]) else m
+
+
+def oracle1(case, io, mo):
     case = strip(case)
     e = case[1]
     pts, durs, total = env_points(e)
@@ -109,6 +123,21 @@ def oracle(case, io, mo):
     if a == b and abs(avg - fl(ans[("value_at", a)][1])) > 0:
         return "average over an empty interval is not value_at(start)"
     return None
+
+
+
+
+def tiny_shape(e):
+    """a control point with a curve shape 0 < |c| < 1e-4 (finding F10: cancellation in exp(c) - 1 and in the antiderivative)"""
+    return any(0 < abs(fl(p[2])) < 1e-4 for p in e[1:])
+
+
+def known(f, case, msg, io):
+    return f.get("id") == "F10" and (msg or "").startswith("[F10]")
+
+
+def known_dis(f, case, msg, io, mo):
+    return f.get("id") == "F10" and (msg or "").startswith("[F10]")
 
 
 def nontrivial(case, io):
